@@ -4,7 +4,7 @@
    expiry of hundreds of other keys meanwhile) against the sequential reference: the history
    "inner operations, then Take k". *)
 From Coq Require Import List ZArith Bool Lia.
-From GZ Require Import C16.Model C16.ProofsCache C16.ProofsCacheLru C16.ModelGate.
+From GZ Require Import C16.Model C16.ModelW C16.ProofsCache C16.ProofsCacheLru C16.ModelGate.
 Import ListNotations. Open Scope Z_scope.
 
 Lemma latest_gone_none : forall l x, latest (map EvGone l) x None = None.
@@ -115,4 +115,94 @@ Proof.
   destruct (c_take_held c k f inner) as [[c' r] rs]. destruct H as [Hrun _].
   rewrite <- (proj1 (cache_evicts_lru_proof limit (pre ++ inner ++ [CTake k f]))).
   rewrite c_run_app. fold c. rewrite Hrun. reflexivity.
+Qed.
+
+(* ------------------------------------------------------------------ *)
+(* with the timing wheel: ticks fire other keys' timers while the loader is parked *)
+
+Lemma callbacks_keep_absent : forall f c w x,
+  alookup x (cdata c) = None -> alookup x (cdata (fst (cw_callbacks c w f))) = None.
+Proof.
+  unfold cw_callbacks. induction f as [|kv f IH]; intros c w x Hx; cbn [fold_left fst]; [exact Hx|].
+  apply IH. cbn [fst]. apply del_keeps_absent. exact Hx.
+Qed.
+
+Lemma cw_set_keeps_absent : forall s k v d x, k <> x ->
+  alookup x (cdata (cwc s)) = None ->
+  alookup x (cdata (cwc (fst (fst (cw_set s k v d))))) = None.
+Proof.
+  intros s k v d x Hk Hx. unfold cw_set.
+  pose proof (set_keeps_absent (cwc s) k v x Hk Hx) as H1.
+  destruct (c_set (cwc s) k v) as [c1 ev]. cbn [fst] in H1.
+  destruct (if amem k (cdata (cwc s)) && cwmv s
+            then TW.move_task (tw_removes (cww s) ev) k d
+            else (TW.set_task (tw_removes (cww s) ev) k v d, [])) as [w2 f].
+  pose proof (callbacks_keep_absent f c1 w2 x H1) as H2.
+  destruct (cw_callbacks c1 w2 f) as [c2 w3]. cbn [fst cwc]. exact H2.
+Qed.
+
+Lemma cw_step_keeps_absent : forall s o x, xop_avoids x o ->
+  alookup x (cdata (cwc s)) = None ->
+  alookup x (cdata (cwc (fst (fst (cw_step s o))))) = None.
+Proof.
+  intros s o x Ha Hx. destruct o as [k v d|k|k|k f d|]; cbn [xop_avoids] in Ha.
+  - cbn [cw_step]. pose proof (cw_set_keeps_absent s k v d x Ha Hx) as H.
+    destruct (cw_set s k v d) as [[s' ev] ex]. cbn [fst] in *. exact H.
+  - cbn [cw_step]. pose proof (doget_keeps_absent (cwc s) k x Hx) as H.
+    destruct (c_doget (cwc s) k) as [c' r]. cbn [fst cwc] in *. exact H.
+  - cbn [cw_step fst cwc]. apply del_keeps_absent. exact Hx.
+  - cbn [cw_step]. pose proof (doget_keeps_absent (cwc s) k x Hx) as H.
+    destruct (c_doget (cwc s) k) as [c' [w|]]; cbn [fst] in H.
+    + cbn [fst cwc]. exact H.
+    + destruct f as [v|].
+      * pose proof (cw_set_keeps_absent (mkCW c' (cww s) (cwmv s)) k v d x Ha H) as H2.
+        destruct (cw_set (mkCW c' (cww s) (cwmv s)) k v d) as [[s' ev] ex]. cbn [fst] in *. exact H2.
+      * cbn [fst cwc]. exact H.
+  - cbn [cw_step]. destruct (TW.on_tick (cww s)) as [w1 f].
+    pose proof (callbacks_keep_absent f (cwc s) w1 x Hx) as H.
+    destruct (cw_callbacks (cwc s) w1 f) as [c2 w2]. cbn [fst cwc] in *. exact H.
+Qed.
+
+Lemma cw_final_keeps_absent : forall inner s x, Forall (xop_avoids x) inner ->
+  alookup x (cdata (cwc s)) = None -> alookup x (cdata (cwc (cw_final s inner))) = None.
+Proof.
+  induction inner as [|o inner IH]; intros s x HF Hx; cbn [cw_final]; [exact Hx|].
+  inversion HF as [|o' l' Ho Hl]; subst. apply IH; [exact Hl|].
+  apply cw_step_keeps_absent; assumption.
+Qed.
+
+Lemma cw_run_app : forall a b s, cw_run s (a ++ b) = cw_run s a ++ cw_run (cw_final s a) b.
+Proof.
+  induction a as [|o a IH]; intros b s; [reflexivity|].
+  cbn [app cw_run cw_final]. destruct (cw_step s o) as [[s' r] ex]. cbn [fst]. rewrite IH. reflexivity.
+Qed.
+
+Lemma cw_final_app : forall a b s, cw_final s (a ++ b) = cw_final (cw_final s a) b.
+Proof.
+  induction a as [|o a IH]; intros b s; [reflexivity|]. cbn [app cw_final]. apply IH.
+Qed.
+
+(* for every limit, wheel, expiry d, loader outcome: Take(k) misses, its loader is held while
+   [inner] runs - operations on other keys AND ticks of the wheel (other entries expire, their
+   callbacks delete them) - then returns: all observations and the final state (cache AND wheel:
+   k's timer is armed when the loader returns) are those of "inner, then Take k" *)
+Theorem cw_take_held_is_take_after_proof : forall s k f d inner,
+  alookup k (cdata (cwc s)) = None ->
+  Forall (xop_avoids k) inner ->
+  let '(s', r, rs) := cw_take_held s k f d inner in
+  cw_run s (inner ++ [XTake k f d]) = rs ++ [r] /\ cw_final s (inner ++ [XTake k f d]) = s'.
+Proof.
+  intros s k f d inner Hk HF. unfold cw_take_held.
+  rewrite (c_doget_miss (cwc s) k Hk). cbn [cwc]. rewrite (c_doget_miss (cwc s) k Hk).
+  assert (Hs : mkCW (cwc s) (cww s) (cwmv s) = s) by (destruct s; reflexivity).
+  rewrite Hs.
+  pose proof (cw_final_keeps_absent inner s k HF Hk) as Hk3.
+  rewrite cw_run_app, cw_final_app. cbn [cw_run cw_final cw_step].
+  rewrite (c_doget_miss _ k Hk3).
+  assert (Hs3 : mkCW (cwc (cw_final s inner)) (cww (cw_final s inner)) (cwmv (cw_final s inner)) = cw_final s inner)
+    by (destruct (cw_final s inner); reflexivity).
+  rewrite Hs3.
+  destruct f as [v|].
+  - destruct (cw_set (cw_final s inner) k v d) as [[s4 ev] ex]. cbn [fst]. split; reflexivity.
+  - cbn [fst]. split; reflexivity.
 Qed.
